@@ -96,7 +96,7 @@ class _Instr(ast.NodeTransformer):
 	def visit_Expr(self, node: ast.Expr) -> ast.AST:
 		if isinstance(node.value, ast.Constant) and isinstance(node.value.value, str):
 			return node  # docstring
-		# the value of an expression statement is discarded: its own site is not compared (its sub-expressions are)
+		# (the value of an expression statement is compared like any other expression; `discarded` is only informative)
 		before = len(self.sites)
 		node.value = self.visit(node.value)
 		for i in range(before, len(self.sites)):
@@ -162,6 +162,7 @@ class Run:
 		self.src = src
 		tree = ast.parse(src)
 		# binding sites of loop / comprehension targets: name -> [(scope node, iterable expression)]
+		self.class_names = {n.name for n in ast.walk(tree) if isinstance(n, ast.ClassDef)}
 		self.binders: list[tuple[ast.AST, set[str], ast.expr]] = []
 		for n in ast.walk(tree):
 			if isinstance(n, (ast.For, ast.comprehension)):
@@ -322,13 +323,33 @@ def op_name(n: ast.AST) -> str:
 	return ''
 
 
-UNDERSTOOD = {'dict-get-missing-key', 'list-literal-class-dedup'}   # listed as known; the other names below are repaired (listed as fixed)
+# failing input classes listed as known findings (the other names computed below are repaired: listed as fixed)
+UNDERSTOOD = {'dict-get-missing-key', 'list-literal-class-dedup', 'union-of-subclasses-attribute', 'ternary-union-of-containers',
+	'tuple-slice-nonliteral-bounds', 'abs-of-bool', 'min-max-mixed-numeric', 'list-of-dict-items', 'boolop-nonbool-operands', 'explicit-init-call'}
+
+CONTAINER_HEADS = ('list', 'dict', 'tuple')
+
+
+def union_members(r: str) -> list[list[str]]:
+	"""member heads of every Union occurring in the short notation r"""
+	out: list[list[str]] = []
+
+	def walk(t: tuple[str, list[Any]]) -> None:
+		if t[0] == 'Union':
+			out.append([m[0] for m in t[1]])
+		for a in t[1]:
+			walk(a)
+	try:
+		walk(parse_ty(r))
+	except ValueError:
+		pass
+	return out
 
 GENERIC_OF_UNION = re.compile(r'(list|dict|tuple|Iterator|ItemsView|Pair)<[^<>]*(<[^<>]*>[^<>]*)*Union<')
 
 
 def canonical_key(raw: str, site: dict[str, Any], real: str, runtime: list[str], kids: list[tuple[dict[str, Any], str]],
-		descendants: list[tuple[dict[str, Any], str]], message: str, binder_reals: list[str]) -> str:
+		descendants: list[tuple[dict[str, Any], str]], message: str, binder_reals: list[str], class_names: set[str] = frozenset()) -> str:  # type: ignore[assignment]
 	"""A stable name for a failing input class that is already understood (the predicate is on the failing site itself:
 	node kind, operator, inferred operand types); otherwise the structural key."""
 	n = site['node']
@@ -341,10 +362,35 @@ def canonical_key(raw: str, site: dict[str, Any], real: str, runtime: list[str],
 		if isinstance(n, ast.BinOp) and isinstance(n.op, (ast.BitOr, ast.BitAnd)) and kid_real == ['bool', 'int']:
 			return 'bitwise-bool-int'
 		if isinstance(n, ast.Subscript) and isinstance(n.slice, ast.Slice) and kid_real and kid_real[0].startswith('tuple'):
-			return 'tuple-slice'
+			def literal(b: ast.expr | None) -> bool:
+				return b is None or (isinstance(b, ast.Constant) and type(b.value) is int and b.value >= 0)
+			# literal or omitted bounds were repaired (c5f6dc1); negative / computed bounds still keep the whole tuple type
+			return 'tuple-slice' if literal(n.slice.lower) and literal(n.slice.upper) and n.slice.step is None else 'tuple-slice-nonliteral-bounds'
+		if isinstance(n, ast.Call) and isinstance(n.func, ast.Attribute) and n.func.attr == '__init__' and 'None' in runtime:
+			return 'explicit-init-call'
+		if isinstance(n, ast.Call) and isinstance(n.func, ast.Name) and n.func.id == 'abs' and kid_real == ['bool']:
+			return 'abs-of-bool'
+		if isinstance(n, ast.Call) and isinstance(n.func, ast.Name) and n.func.id in ('min', 'max') and len(set(kid_real)) > 1 \
+				and set(kid_real) <= {'int', 'float', 'bool'}:
+			return 'min-max-mixed-numeric'
+		if isinstance(n, ast.Call) and isinstance(n.func, ast.Name) and n.func.id == 'list' and kid_real and kid_real[0].startswith('ItemsView<'):
+			return 'list-of-dict-items'
+		if isinstance(n, ast.BoolOp) and any(r != 'bool' for r in kid_real):
+			return 'boolop-nonbool-operands'
 		if isinstance(n, ast.Call) and isinstance(n.func, ast.Attribute) and n.func.attr == 'get' and len(n.args) == 1 \
 				and kid_real and kid_real[0].startswith('dict<') and 'None' in runtime:
 			return 'dict-get-missing-key'
+	if raw.startswith('raises:'):
+		around = [real, *(r for _, r in kids), *(r for _, r in descendants), *binder_reals]
+		# a ternary whose branches are inferred as different container types is a Union of containers: no operator/method resolves on it
+		for ds, r in [*kids, *descendants]:
+			if isinstance(ds['node'], ast.IfExp) and any(len(ms) > 1 and all(m in CONTAINER_HEADS for m in ms) for ms in union_members(r)[:1]):
+				return 'ternary-union-of-containers'
+		# a Union of user classes (a list literal over a class and its subclass): no attribute resolves on it
+		if 'UnresolvedSymbol' in raw and class_names:
+			for r in around:
+				if any(len(ms) > 1 and all(m in class_names for m in ms) for ms in union_members(r)):
+					return 'union-of-subclasses-attribute'
 	for r in binder_reals:
 		if GENERIC_OF_UNION.search(r):
 			return 'template-union-first-member'
@@ -368,7 +414,7 @@ def compare(run: Run, refl: Any, module: Any) -> tuple[list[dict[str, Any]], dic
 	bad: dict[int, dict[str, Any]] = {}
 	for i, site in run.instr.sites.items():
 		obs = run.observed.get(i)
-		if not obs or site.get('discarded'):
+		if not obs:
 			continue
 		stats['observed'] += 1
 		cands = by_span.get(site['span'])
@@ -447,7 +493,13 @@ def compare(run: Run, refl: Any, module: Any) -> tuple[list[dict[str, Any]], dic
 			has_bad_desc.add(p)
 			p = run.instr.sites[p]['parent']
 	out = []
-	for i, b in bad.items():
+	key_of: dict[int, str] = {}
+
+	def span_size(i: int) -> tuple[int, int]:
+		l0, c0, l1, c1 = run.instr.sites[i]['span']
+		return (l1 - l0, c1 - c0 if l1 == l0 else c1)
+
+	for i, b in sorted(bad.items(), key=lambda kv: span_size(kv[0])):
 		site = run.instr.sites[i]
 		if i in has_bad_desc and b['why'] == 'type':
 			continue
@@ -481,7 +533,13 @@ def compare(run: Run, refl: Any, module: Any) -> tuple[list[dict[str, Any]], dic
 						if rj is not None:
 							binder_reals.append(rj)
 						binder_reals.extend(r for _, r in ((run.instr.sites[k], real_at(k)) for k in descendants_of(j)) if r is not None)
-		key = canonical_key(raw, run.instr.sites[root] if site['kind'] == 'decl' else site, b['real'], b['runtime'], kids, desc, b.get('message', ''), binder_reals)
+		key = canonical_key(raw, run.instr.sites[root] if site['kind'] == 'decl' else site, b['real'], b['runtime'], kids, desc, b.get('message', ''), binder_reals, run.class_names)
+		if b['why'] == 'raises' and key == raw:
+			# inference fails here because a sub-expression was already mis-typed: the finding belongs to that cause
+			causes = [key_of[j] for j in descendants_of(root) if j in key_of]
+			if causes:
+				key = causes[0]
+		key_of[i] = key
 		l0, c0, l1, c1 = site['span']
 		lines = run.src.split('\n')
 		text = lines[l0 - 1][c0:c1] if l0 == l1 else lines[l0 - 1][c0:]
